@@ -192,7 +192,7 @@ def main(argv=None):
     budget = float(os.environ.get("VERIF_BUDGET_S", "900" if tier == "quick" else "7200"))
     nproc = int(os.environ.get("VERIF_NPROC", str(os.cpu_count() or 4)))
     case_timeout = float(os.environ.get(
-        "VERIF_CASE_TIMEOUT", str(getattr(mod, "CASE_TIMEOUT", {"quick": 90, "thorough": 300})[tier])))
+        "VERIF_CASE_TIMEOUT", str(getattr(mod, "CASE_TIMEOUT", {"quick": 600, "thorough": 1800})[tier])))
 
     import numpy as np  # noqa
     import sigpy  # noqa  (imported before fork so workers share it)
